@@ -11,8 +11,41 @@ let contains (hay : n list) (needle : n list) =
   let rec go h = pre h needle || (match h with [] -> false | _ :: t -> go t) in go hay
 let txt s = List.map (fun c -> n_of_int (Char.code c)) (List.of_seq (String.to_seq s))
 
+let cfg_of_fields (orig : string) : ycfg =
+  let fields = split_on ' ' orig in
+  let get k = (try field (List.find (fun f -> String.length f > String.length k && String.sub f 0 (String.length k + 1) = k ^ "=") fields) with Not_found -> "-") in
+  let dur_of s = if s = "-" then None else (match split_on '.' s with [a; b] -> Some (n_of_int (int_of_string a), n_of_int (int_of_string b)) | _ -> None) in
+  let flag k = (match get k with "-" -> None | "1" -> Some true | _ -> Some false) in
+  let env = get "env" and wp = get "wp" in
+  { y_os = (match get "os" with "-" -> None | v -> Some (n_of_int (int_of_string v)));
+    y_kc = flag "kc"; y_to = dur_of (get "to"); y_de = flag "de";
+    y_sk = (match get "sk" with "-" -> None | v -> Some (z_of_int (int_of_string v)));
+    y_sa = flag "sa";
+    y_wa = (match dur_of (get "wa") with None -> None | Some d -> Some (d, (if wp = "-" then None else Some (text_of_hex (unx wp)))));
+    y_env = (if env = "-" then [] else List.map (fun kv -> match split_on ':' kv with [k; v] -> (text_of_hex (unx k), text_of_hex (unx v)) | _ -> ([], [])) (split_on ',' env)) }
+
+(* Y 3: configuration -> MarkdownTestCaseGenerator -> document -> MarkdownParser with the defaults of the format *)
+let run_generated line =
+  match split_on '|' (String.sub line 4 (String.length line - 4)) with
+  | [orig; text; back; expect; dflt] ->
+    bump "form:generated-block-header"; note_distinct orig true; sample line;
+    if back = "panic" then report "SPEC:C17" "generating the test or reading it back panicked" line
+    else if back <> expect then
+      report "SPEC:C17" "a test generated from a configuration reads back (with the defaults of the format) with a different configuration" line;
+    if text <> "-" then begin
+      let c = cfg_of_fields orig and d = cfg_of_fields dflt in
+      let doc = text_of_hex text in
+      let header = (match str_lines doc with h :: _ -> h | [] -> []) in
+      let model = txt "```scrut" @ gen_config_suffix c d in
+      if header <> model then report "DIFF:one-liner" "the header of the generated block is not ```scrut followed by the one-liner of what differs from the format defaults" line;
+      if ywith_defaults (ydiff c d) d <> ywith_defaults c d then report "BAD" "model: diff then defaults" line;
+      if cfg_of_fields expect <> ywith_defaults c d then report "DIFF:one-liner" "with_defaults_from disagrees with the model" line
+    end
+  | _ -> report "BAD" "unparsable case line" line
+
 let run () = iter_lines (fun line ->
   let kind = line.[2] in
+  if kind = '3' then run_generated line else
   match split_on '|' (String.sub line 4 (String.length line - 4)) with
   | [orig; text; back] ->
     let fields = split_on ' ' orig in
